@@ -531,6 +531,8 @@ func ruleMetaAtomic(r *core.Run, p *core.Prog) {
 				}
 			case name == "os.WriteFile" || name == "os.Create" || name == "os.OpenFile":
 				out = append(out, ev{label: "direct-write", node: c})
+			case (name == "os.Remove" || name == "os.RemoveAll" || name == "os.Truncate") && len(c.Args) >= 1 && core.MentionsField(info, c.Args[0], fMeta):
+				out = append(out, ev{label: "unlink-meta", node: c})
 			}
 		}
 		return out
@@ -544,6 +546,9 @@ func ruleMetaAtomic(r *core.Run, p *core.Prog) {
 	for _, t := range ts {
 		if t.has("direct-write") || t.has("rename-meta?") || t.has("createtemp-elsewhere") || t.has("marshal-elsewhere") {
 			bad = "metadata is written other than via a temp file in the day directory renamed onto the metadata path: " + pathLines(p, g, t.path)
+		}
+		if t.has("unlink-meta") {
+			bad = "the committed metadata file is removed / truncated in place: between that call and the rename a reader (or a crash) finds the day without metadata: " + pathLines(p, g, t.path)
 		}
 		if t.has("rename-meta") {
 			i := t.first("rename-meta")
